@@ -84,6 +84,63 @@ pub trait BddBuilder<'a>: BottomUpBuilder<'a, BddPtr<'a>> {
                 forall|env: Env| #[trigger] tr(env) ==> cur_bdd.sem(env) == (forall|i: int| 0 <= i < it.index@ ==> (#[trigger] f@[i]).sem(env)), // #SEM
 //%% end
 
+// R-for-while: Verus accepts `continue` only in `while` loops, so the inner `for lit in clause.iter()` (which uses
+// `break` and `continue`) is desugared to an indexed `while` over the same Vec; the loop body is the real text.
+// A-heap (trusted/heap_stub.rs): the BinaryHeap is a stub whose `pop` returns some held element, so the proof covers
+// every conjunction order.  `count_nodes` is unverified (A-count) and only feeds the heap priority.
+//%% extract src/builder/bdd/builder.rs :: trait BddBuilder<'a>: BottomUpBuilder<'a, BddPtr<'a>> :: fn compile_cnf_with_assignments
+//%% @props C05 C01 C02
+//%% @attr #[verifier::loop_isolation(false)] #[verifier::allow_complex_invariants]
+//%% @ret r
+//%% @rewrite 1 /for clause in clauses\.iter\(\) \{/ => for clause in it: clauses.iter() {
+//%% @rewrite 1 /for lit in clause\.iter\(\) \{/ => let mut lit__i: usize = 0;\n            while lit__i < clause.len() {\n                let lit = &clause[lit__i];\n                lit__i += 1;
+//%% @spec
+        requires
+            self.bu_inv(),
+            forall|i: int, j: int| 0 <= i < cnf.cls().len() && 0 <= j < cnf.cls()[i].len() ==> self.lbl_ok((#[trigger] cnf.cls()[i][j]).lbl),
+        ensures
+            self.ok(r), self.shape2(r), // #C02
+            // the diagram of the formula with the assigned variables fixed to their values
+            forall|env: Env| #[trigger] tr(env) ==> r.sem(env) == cnf_holds_under(cnf.cls(), assgn, env), // #SEM
+            forall|env: Env| #[trigger] tr(env) ==> r.sem(env) == cnf_holds(cnf.cls(), over(env, assgn)), // #SEM
+//%% @entry
+        let ghost cls0 = cnf.cls();
+        proof {
+            tr_all(); self.consts_ok();
+            assert forall|env: Env| #[trigger] tr(env) implies cnf_holds_under(cls0, assgn, env) == cnf_holds(cls0, over(env, assgn)) by {
+                lemma_under_is_override(cls0, assgn, env);
+            }
+            assert forall|s: Seq<CompiledCNF>, x: CompiledCNF, env: Env| #![trigger all_sem(s.push(x), env)]
+                all_sem(s.push(x), env) == (all_sem(s, env) && x.ptr.sem(env)) by { lemma_all_sem_push(s, x, env); }
+            assert forall|s: Seq<CompiledCNF>, i: int, env: Env| #![trigger all_sem(s.remove(i), env)]
+                0 <= i < s.len() implies all_sem(s, env) == (s[i].ptr.sem(env) && all_sem(s.remove(i), env)) by { lemma_all_sem_remove(s, i, env); }
+        }
+//%% @loop 1 /^for clause in it: clauses\.iter\(\)$/
+            invariant
+                self.bu_inv(), clauses@ == cls0, compiled_heap@.len() == it.index@,
+                forall|k: int| 0 <= k < compiled_heap@.len() ==> self.ok((#[trigger] compiled_heap@[k]).ptr) && self.shape2(compiled_heap@[k].ptr),
+                forall|env: Env| #[trigger] tr(env) ==> all_sem(compiled_heap@, env) == (forall|i: int| 0 <= i < it.index@ ==> clause_holds_under((#[trigger] cls0[i])@, assgn, env)), // #SEM
+//%% @loopbody 1
+            proof {
+                assert(clause@ == cls0[it.index@ as int]@);
+                assert forall|j: int| 0 <= j < clause.len() implies self.lbl_ok((#[trigger] clause@[j]).lbl) by { assert(clause@[j] == cls0[it.index@ as int][j]); }
+            }
+//%% @loop 2 /^while lit__i < clause\.len\(\)$/
+                invariant_except_break
+                    forall|env: Env| #[trigger] tr(env) ==> cur_ptr.sem(env) == (exists|j: int| 0 <= j < lit__i && lit_under(#[trigger] clause@[j], assgn, env)), // #SEM
+                invariant
+                    lit__i <= clause.len(), self.ok(cur_ptr), self.shape2(cur_ptr),
+                ensures
+                    forall|env: Env| #[trigger] tr(env) ==> cur_ptr.sem(env) == clause_holds_under(clause@, assgn, env), // #SEM
+                decreases clause.len() - lit__i,
+//%% @loop 3 /^while compiled_heap\.len\(\)/
+            invariant
+                compiled_heap@.len() >= 1,
+                forall|k: int| 0 <= k < compiled_heap@.len() ==> self.ok((#[trigger] compiled_heap@[k]).ptr) && self.shape2(compiled_heap@[k].ptr),
+                forall|env: Env| #[trigger] tr(env) ==> all_sem(compiled_heap@, env) == cnf_holds_under(cls0, assgn, env), // #SEM
+            decreases compiled_heap@.len(),
+//%% end
+
 //%% extract src/builder/bdd/builder.rs :: trait BddBuilder<'a>: BottomUpBuilder<'a, BddPtr<'a>> :: fn collapse_clauses
 //%% @attr #[verifier::exec_allows_no_decreases_clause]
 //%% @ret r
